@@ -413,3 +413,41 @@ Proof.
     + simpl. rewrite L. reflexivity.
     + simpl. rewrite E, S, P. reflexivity.
 Qed.
+
+(* ================================================================================================ *)
+(* check-then-act release (Limiter.cstep): two goroutines that finish together both see a free slot; the second send blocks
+   forever.  No schedule gets it out: nothing takes a token any more. *)
+Definition cta_sched : list clabel := [CCheck 0; CCheck 1; CSend 0].
+
+Lemma cta_stuck : forall (ls : list clabel) (c c' : ccfg), nth_error (rel c) 1 = Some RChecked -> ctok c = 1 ->
+  crun 1 c ls = Some c' -> nth_error (rel c') 1 = Some RChecked /\ ctok c' = 1.
+Proof.
+  induction ls as [|l ls IH]; intros c c' Hr Ht Hrun.
+  - inversion Hrun; subst. split; assumption.
+  - simpl in Hrun. destruct (cstep 1 c l) as [c1|] eqn:Es; [|discriminate].
+    apply (IH c1 c'); try exact Hrun.
+    + destruct l as [i|i|]; simpl in Es.
+      * destruct (nth_error (rel c) i) as [[| |]|] eqn:En; try discriminate. inversion Es; subst c1. simpl.
+        destruct i as [|[|i]]; simpl.
+        -- destruct (rel c) as [|a [|b r]]; simpl in *; try discriminate; exact Hr.
+        -- rewrite Hr in En. discriminate.
+        -- destruct (rel c) as [|a [|b r]]; simpl in *; try discriminate; exact Hr.
+      * destruct (nth_error (rel c) i) as [[| |]|] eqn:En; try discriminate. rewrite Ht in Es. discriminate.
+      * rewrite Ht in Es. discriminate.
+    + destruct l as [i|i|]; simpl in Es.
+      * destruct (nth_error (rel c) i) as [[| |]|]; try discriminate. inversion Es; subst c1. exact Ht.
+      * destruct (nth_error (rel c) i) as [[| |]|]; try discriminate. rewrite Ht in Es. discriminate.
+      * rewrite Ht in Es. discriminate.
+Qed.
+
+Theorem refuted_check_then_act :
+  exists c, crun 1 (mkCC 0 [RIdle; RIdle]) cta_sched = Some c /\
+            nth_error (rel c) 1 = Some RChecked /\ ctok c = 1 /\
+            forall ls c', crun 1 c ls = Some c' -> nth_error (rel c') 1 = Some RChecked /\ ctok c' = 1.
+Proof.
+  exists (mkCC 1 [RReturned; RChecked]). split; [reflexivity|]. split; [reflexivity|]. split; [reflexivity|].
+  intros ls c' Hrun. apply (cta_stuck ls (mkCC 1 [RReturned; RChecked]) c'); [reflexivity|reflexivity|exact Hrun].
+Qed.
+Print Assumptions refuted_check_then_act.
+
+(* with the atomic non-blocking hand-back there is no such state: release_never_blocks above *)
